@@ -344,7 +344,9 @@ PROPS["C12"] = {
                    "Oracle: exactly one decodable reply within the query timeout; never more than 1500 packets or 2000 sub-queries in any mode; in enforce mode packets <= max_outbound_queries, signature checks <= max_signature_checks, DS digests and NSEC3 hashes <= their budgets, an over-budget reply is SERVFAIL with the budget EDE for EDNS clients and the next client's identical question is worked on again; off and shadow never report a budget; with one address per delegation and stateless shapes a shadow run's replies equal a firewall-off run's. Exploration."),
     "level_note": "Trusted: the hook counters (they sit inside cryptoVerify, the DS digest match and the NSEC3 hash, and at the two internalExchange entries) and the packet log. max_internal_queries is not compared exactly: the counter sees sub-queries started, including ones the ledger then refuses. max_dnskey_candidates / per-RRset signature limits are covered only through the total. CPU time is not measured; the cache-internal blow-up found here shows as the sub-query cap being hit. Multi-address worlds make sdns's server choice scheduling-dependent, so only bounds are asserted there.",
     "rule": ("evaluations = histories of 1-4 pathological questions (twice when the second client is on). Non-trivial = some question cost more than 8 packets or 8 signature checks, or a budget was reported exceeded; distinct = hash(mode, budgets, size, options, shapes)."),
-    "units": {"budget": {"pkg": "./server", "run": "^TestVerifC12Budget$", "tiers": {"quick": T(500, 8, timeout=900), "thorough": T(15000, 12, timeout=3400)},
+    "units": {"chase": {"pkg": "./middleware/cache", "run": "^TestVerifC12Chase$", "tiers": {"quick": T(3000, 4, timeout=600), "thorough": T(150000, 8, timeout=3000)},
+                        "floors": {"C12.chase": {"budget-tripped-inside-the-chase": 0.2, "chase-from-cache-hit": 0.2}}},
+              "budget": {"pkg": "./server", "run": "^TestVerifC12Budget$", "tiers": {"quick": T(500, 8, timeout=900), "thorough": T(15000, 12, timeout=3400)},
                          "floors": {"C12.budget": {"mode:enforce": 0.3, "mode:shadow": 0.1, "mode:off": 0.1, "budget-exceeded": 0.08, "shadow-vs-off-twin": 0.05, "multi-address-delegations": 0.2, "shape:restart": 0.1, "shape:loop": 0.05, "shape:many-sigs": 0.03, "shape:nxns-victim": 0.03}}}},
 }
 
